@@ -1,6 +1,7 @@
 """C06 — trench programs fire only inside trench footprints and cut the full depth."""
 from __future__ import annotations
 
+import json
 import math
 import os
 import pathlib
@@ -26,7 +27,8 @@ RULE = ('1..3 trench columns (or U-trench columns with 0..2 pillars) are dug wit
         'nothing left loaded.  The harness then walks the nested trace: every shutter-open move of a calling file is a pure z step '
         'inside the footprint of the block being cut; every leaf sub-program called with the shutter open (and the approach to its '
         'first point) lies inside the footprint (shapely, block transformed with the documented map computed from the user\'s '
-        'angle) of the block its name designates in the column being fabricated; per block and level the wall passes, converted to '
+        'angle, both sides taken to the physical frame: program points rotated by the G84 angle active in the trace, the footprint by '
+        'the configured aerotech angle) of the block its name designates in the column being fabricated; per block and level the wall passes, converted to '
         'glass depth, start at level*h_box + z_off, are the Lean schedule (c06.depth), no more than deltaz apart also across '
         'levels, reach within deltaz of the top of the box and are followed by the floor of the same block at or above that top.  '
         'non-trivial = at least 2 blocks and 2 levels with a rotation or a flip.')
@@ -51,7 +53,7 @@ CLAIM = {
 }
 
 EXTRA_MODULES = ['FemtoVerif.Proofs.TreeLemmas']
-KEYS = ('cols', 'cfg', 'utrench', 'dirname', 'mutate')
+KEYS = ('cols', 'cfg', 'utrench', 'dirname', 'mutate', 'same_writer')
 
 
 # ------------------------------------------------------------------------------------------------------------------
@@ -74,7 +76,7 @@ def gen_case(rng, directed=None):
         if utrench:
             col['n_pillars'] = rng.choice([0, 1, 2])
             col['pillar_width'] = rng.choice([0.04, 0.02])
-        kind = directed or rng.choice(['plain', 'plain', 'tilted', 'neck', 'sbend'])
+        kind = directed or rng.choice(['plain', 'plain', 'plain', 'tilted', 'tilted', 'neck', 'neck', 'sbend', 'sbend', 'vneck', 'step'])
         y0, y1 = col['y_min'], col['y_max']
         xa, xb = col['x_center'] - col['length'] / 2 - 0.5, col['x_center'] + col['length'] / 2 + 0.5
         if kind == 'plain':
@@ -85,6 +87,20 @@ def gen_case(rng, directed=None):
         elif kind == 'sbend':
             guides = [{'kind': 'sbend', 'y': round(y0 + 0.5 * (y1 - y0), 4), 'xa': xa, 'xb': xb, 'dy': round(rng.choice([-1, 1]) * 0.06, 4),
                        'xs': round(col['x_center'] - col['length'] / 2 - 0.05, 4)}]
+        elif kind == 'vneck':
+            # a guide with a V-shaped dip towards a straight one: the block between them is pinched from one side only
+            d, w = rng.choice([0.1, 0.15]), rng.choice([0.05, 0.1])
+            yu = round(y1 - 0.1 * (y1 - y0), 4)
+            yl = round(yu - d - (col['delta_floor'] * 3.5 + 2 * (col['bridge'] / 2 + col['beam_waist'])), 4)
+            xc = col['x_center']
+            guides = [{'kind': 'poly', 'pts': [[xa, yu], [xc - w, yu], [xc, round(yu - d, 4)], [xc + w, yu], [xb, yu]]},
+                      {'kind': 'poly', 'pts': [[xa, yl], [xb, yl]]}]
+        elif kind == 'step':
+            # one guide that climbs by more than the thickness of the block below it: the bed of a U-trench gets a notch
+            d = rng.choice([0.1, 0.15])
+            yl = round(y0 + 0.05, 4)
+            xc = col['x_center']
+            guides = [{'kind': 'poly', 'pts': [[xa, yl], [xc - 0.1, yl], [xc + 0.1, round(yl + d, 4)], [xb, round(yl + d, 4)]]}]
         else:
             # two guides bending towards each other: the block between them has a neck a few floor spacings wide
             gap = col['delta_floor'] * rng.uniform(2.5, 5.0) + 2 * (col['bridge'] / 2 + col['beam_waist'])
@@ -94,7 +110,9 @@ def gen_case(rng, directed=None):
                       {'kind': 'sbend2', 'y': round(ym - gap / 2 - b, 5), 'xa': xa, 'xb': xb, 'dy': b, 'xs': round(col['x_center'] - col['length'] / 2 - 0.3, 4)}]
         cols.append({'col': col, 'guides': guides})
     mutate = None
-    if rng.random() < 0.3:
+    if rng.random() < 0.1:
+        mutate = [{} for _ in cols]          # a plain second export
+    elif rng.random() < 0.3:
         mutate = [{k: v for k, v in (('deltaz', rng.choice([0.005, 0.0125, 0.004])), ('h_box', rng.choice([0.04, 0.06])),
                                      ('z_off', rng.choice([-0.01, 0.0])), ('nboxz', rng.choice([1, 2]))) if rng.random() < 0.5}
                   for _ in cols]
@@ -102,16 +120,22 @@ def gen_case(rng, directed=None):
     cfg['output_digits'] = 6
     cfg['export_dir'] = rng.choice(['', 'out', 'a/b'])
     cfg['filename'] = 'trenches.pgm'
-    return {'cols': cols, 'cfg': cfg, 'utrench': utrench, 'dirname': rng.choice(['TRENCH', 'TR', 'u-tr']), 'mutate': mutate}
+    return {'cols': cols, 'cfg': cfg, 'utrench': utrench, 'dirname': rng.choice(['TRENCH', 'TR', 'u-tr']), 'mutate': mutate, 'same_writer': rng.random() < 0.5}
 
 
 def build_guide(g):
     import props.c05 as c05
-    if g['kind'] != 'sbend2':
+    if g['kind'] not in ('sbend2', 'poly'):
         return c05.build_guide(g)
     from femto.waveguide import Waveguide
     par = dict(speed=20, samplesize=(200, 200), radius=15, pitch=0.08, int_dist=0.007, int_length=0.0, arm_length=0.0, lsafe=0)
     wg = Waveguide(**par)
+    if g['kind'] == 'poly':
+        wg.start([g['pts'][0][0], g['pts'][0][1], 0.035])
+        for (x, y) in g['pts'][1:]:
+            wg.linear([x, y, 0.035], mode='ABS')
+        wg.end()
+        return [wg]
     wg.start([g['xa'], g['y'], 0.035]).linear([g['xs'], g['y'], 0.035], mode='ABS')
     wg.sin_bend(g['dy']).sin_bend(-g['dy'])
     wg.linear([max(g['xb'], wg.lastx + 0.1), wg.lasty, wg.lastz], mode='ABS')
@@ -175,7 +199,7 @@ def check_case(ctx, case):
     with gcommon.Scratch() as d, core.quiet():
         try:
             W = (UTrenchWriter if case['utrench'] else TrenchWriter)(cols, dirname=case['dirname'], **cfg)
-            if case.get('mutate'):
+            if case.get('mutate') is not None:
                 # the columns are exported once (with the time estimate), then their depth parameters are changed and they are
                 # exported again: the second tree is the one judged, against the new parameters
                 W.pgm(verbose=True)
@@ -185,7 +209,8 @@ def check_case(ctx, case):
                 for tc, mu in zip(cols, case['mutate']):
                     for k, v in mu.items():
                         setattr(tc, k, v)
-                W = (UTrenchWriter if case['utrench'] else TrenchWriter)(cols, dirname=case['dirname'], **cfg)
+                if not case.get('same_writer'):
+                    W = (UTrenchWriter if case['utrench'] else TrenchWriter)(cols, dirname=case['dirname'], **cfg)
             W.pgm(verbose=False)
         except core.InfraError:
             raise
@@ -221,7 +246,7 @@ def check_case(ctx, case):
         ctx.seen({'stream': 'tree', **info}, nt)
         ctx.count('tree.columns', str(len(cols)))
         ctx.count('tree.kind', 'U' if case['utrench'] else 'plain')
-        ctx.count('tree.history', 'parameters-changed-after-first-export' if case.get('mutate') else 'fresh')
+        ctx.count('tree.history', ('second-export' + ('/same-writer' if case.get('same_writer') else '/new-writer')) if case.get('mutate') is not None else 'fresh')
         ctx.count('tree.blocks', str(min(nb, 6)))
         ctx.count('tree.files', str(len(files) // 5 * 5) + '+')
         # ---- static part, decided by the Lean controller on the real bytes
@@ -264,22 +289,43 @@ def check_case(ctx, case):
             k = (ci, kind, bi)
             if k not in foot:
                 src = beds[ci] if kind == 'bed' else blocks[ci]
-                foot[k] = transform_poly(src[bi], cfg) if bi < len(src) else None
+                fp_ = transform_poly(src[bi], cfg) if bi < len(src) else None
+                if fp_ is not None and aero:
+                    from shapely import affinity
+                    fp_ = affinity.rotate(fp_, aero, origin=(0, 0))      # the configured part rotation (same convention as phys())
+                foot[k] = fp_
             return foot[k]
 
-        state = {'pos': [None, None, None], 'col': None}
+        state = {'pos': [None, None, None], 'col': None, 'g84': None}
+        # the angles of the `G84 X Y F<angle>` lines of every file, in order (the trace says when a rotation is switched on / off)
+        g84_angles = {n.lower().rsplit('.', 1)[0]: [float(a) for a in re.findall(r'^G84 X Y F([-0-9.eE+]+)', t, re.M)] for n, t in files}
+        g84_used = {}
+        aero = float(cfg.get('aerotech_angle') or 0.0) % 360
+
+        def phys(x, y):
+            """physical position of a program point under the part rotation that is active in the trace"""
+            a = math.radians(state['g84'] or 0.0)
+            return (math.cos(a) * x - math.sin(a) * y, math.sin(a) * x + math.cos(a) * y)
         passes = {}      # (col, block) -> list of (level-order index, kind, z)
 
         def inside(poly, geom, scale):
             return poly.buffer(tol0 + 1e-6 * scale).covers(geom)
 
-        def walk(tr, depth_, colidx):
+        def walk(tr, depth_, colidx, fileid='main'):
             episode = None      # block designated by the leaf calls of the current open-shutter episode
             open_pts = []
             for e in tr:
                 t = e['t']
                 if t == 'err':
                     err('controller:' + e['m'].split(':')[0], 'reference controller: ' + e['m'])
+                elif t == 'rot':
+                    if e['on']:
+                        k_ = g84_used.get(fileid, 0)
+                        lst = g84_angles.get(fileid, [])
+                        state['g84'] = lst[k_ % len(lst)] if lst else 0.0
+                        g84_used[fileid] = k_ + 1
+                    else:
+                        state['g84'] = None
                 elif t == 'pso':
                     if not e['on']:
                         if episode is not None:
@@ -295,7 +341,7 @@ def check_case(ctx, case):
                     if e['s']:
                         if (src[0], src[1]) != (dst[0], dst[1]):
                             err('discipline:trace', f'calling file moves in x/y with the shutter open: {src} -> {dst}')
-                        open_pts.append((dst[0], dst[1]))
+                        open_pts.append(phys(dst[0], dst[1]) if dst[0] is not None and dst[1] is not None else (dst[0], dst[1]))
                     state['pos'] = dst
                 elif t == 'sub':
                     if not e['leaf']:
@@ -303,7 +349,7 @@ def check_case(ctx, case):
                         ci = int(m.group(1)) - 1 if m else None
                         if e['s']:
                             err('discipline:trace', f'{e["k"]} entered with the shutter open')
-                        walk(e['inner'], depth_ + 1, ci)
+                        walk(e['inner'], depth_ + 1, ci, e['k'])
                         continue
                     for m_ in e.get('errs', []):
                         err('controller:leaf', 'reference controller: ' + m_)
@@ -328,7 +374,7 @@ def check_case(ctx, case):
                         elif episode != (colidx, 'bed' if kind == 'bed' else 'block', bi):
                             err('footprint:two-blocks', f'one shutter-open episode covers {episode} and block {bi}')
                         x0, y0 = state['pos'][0], state['pos'][1]
-                        full = ([(x0, y0)] if x0 is not None else []) + pts
+                        full = [phys(*p_) for p_ in ([(x0, y0)] if x0 is not None else []) + pts]
                         line = geometry.LineString(full) if len(full) >= 2 else geometry.Point(full[0])
                         scale = max(abs(v) for p in full for v in p)
                         if not inside(fp, line, scale):
@@ -447,8 +493,10 @@ def run(ctx):
     rng = ctx.rng
     jobs, reqs = [], []
     n = ctx.n(24, 260)
-    for i in range(n):
-        case = gen_case(rng, directed='neck' if i % 8 == 7 else None)
+    # the corpus runs first: the inputs of the open findings F9 / F9-bed (known_findings.json), kept as generated cases
+    corpus = json.loads((pathlib.Path(__file__).with_name('c06_corpus.json')).read_text())
+    for i in range(len(corpus) + n):
+        case = corpus[i] if i < len(corpus) else gen_case(rng, directed='neck' if i % 8 == 7 else None)
         r = check_case(ctx, case)
         if r is None:
             continue
